@@ -27,7 +27,7 @@ ASSUMPTIONS = [
 REQUIRED_COUNTERS = ('schedules_executed', 'preemptions_taken', 'responses_compared', 'wsdl_builds_counted')
 SHARD_TIMEOUT = {'quick': 900, 'thorough': 3000}
 
-WORKLOADS = ('wsdl2', 'wsdl3_rpc', 'wsdl_rpc', 'rpc_pa', 'rpc_pa_json', 'lxml_mix', 'json_mix', 'xml_3', 'msgpack_mix', 'soap12_mix')
+WORKLOADS = ('wsdl2', 'wsdl3_rpc', 'wsdl_rpc', 'rpc_pa', 'rpc_pa_json', 'lxml_mix', 'json_mix', 'xml_3', 'msgpack_mix', 'soap12_mix', 'multiref')
 
 
 def shards(tier, seed):
@@ -121,7 +121,7 @@ class Universe(object):
         self.name = name
         self.builds = 0
         kind = {'wsdl2': 'soap11', 'wsdl3_rpc': 'soap11', 'wsdl_rpc': 'soap11', 'rpc_pa': 'soap11', 'rpc_pa_json': 'json',
-                'lxml_mix': 'soap11', 'json_mix': 'json', 'xml_3': 'xml', 'msgpack_mix': 'msgpack', 'soap12_mix': 'soap12'}[name]
+                'lxml_mix': 'soap11', 'json_mix': 'json', 'xml_3': 'xml', 'msgpack_mix': 'msgpack', 'soap12_mix': 'soap12', 'multiref': 'soap11'}[name]
         self.kind = kind
         protcls = {'soap11': Soap11, 'soap12': Soap12, 'json': JsonDocument, 'xml': XmlDocument, 'msgpack': MessagePackDocument}[kind]
 
@@ -181,7 +181,14 @@ class Universe(object):
         wsdl = dict(method='GET', path='/', qs='wsdl', body=b'', content_type=None)
         item1 = [('it', {'a': 1, 'b': 'one'})]
         item2 = [('it', {'a': 2, 'b': 'two'})]
+        def multiref(a, b):
+            # SOAP section-5 encoding as toolkits write it: the argument is an accessor (href) to an element that carries the data,
+            # and every toolkit numbers those id1, id2, ... from the start
+            body = ('<e:Envelope xmlns:e="%s" xmlns:tns="%s"><e:Body><tns:echo_item><tns:it href="#id1"/></tns:echo_item>'
+                    '<tns:Item id="id1"><tns:a>%d</tns:a><tns:b>%s</tns:b></tns:Item></e:Body></e:Envelope>' % (M.S11, M.TNS, a, b)).encode()
+            return dict(method='POST', path='/', qs='', body=body, content_type='text/xml; charset=utf-8')
         self.requests = {
+            'multiref': [multiref(1, 'alice'), multiref(2, 'bob'), R(kind, 'echo_item', item1)],
             'wsdl2': [wsdl, wsdl],
             'wsdl3_rpc': [wsdl, wsdl, wsdl, R(kind, 'echo', [('n', 5)])],
             'wsdl_rpc': [wsdl, R(kind, 'echo_item', item1)],
